@@ -34,6 +34,10 @@ func (c04Format) BucketOf(nb uint32, key []byte) uint {
 	return h.BucketHash(key)
 }
 
+func (c04Format) EntryHash(domain uint32, key []byte) uint64 {
+	return EntryHash64(domain, key) & 0xffffff
+}
+
 func (c04Format) FixValue(valueSize, variant int, raw []byte) []byte {
 	out := make([]byte, 36)
 	copy(out, raw)
